@@ -223,7 +223,21 @@ def run(pid: str, tier: str, seed: int, selftest=False, replay=None) -> int:
             family = {pre + ("F", "X") + th + ("E",) + el + (")", ")") + post
                       for pre, th, el in itertools.product(leafseqs, repeat=3) for post in leafseqs[:3]}
             deep = sorted(family) + _r.Random(seed * 9176 + 5).sample([t for t in deep if t not in family], 400)
-        progs = list(progs) + deep
+        # two accelerators: one configured only around a region (loop / conditional, every body of the enumerated small scope incl. calls),
+        # the other one inside it - what is known about the outer one after the region depends on what the body does to BOTH
+        def single_region(t):
+            if t[0] not in ("F", "X") or t[-1] != ")":
+                return False
+            d = 0
+            for j, x in enumerate(t):
+                d += 1 if x in ("F", "X") else -1 if x == ")" else 0
+                if d == 0 and j < len(t) - 1:
+                    return False
+            return True
+        small3 = [t for t in progs if sum(1 for x in t if x not in (")", "E")) <= 3 and single_region(t)]
+        sandwiches = [("J1",) + tuple(t) + (post,) for t in small3 for post in ("J1", "J2")]
+        rep.extra["two_accelerator_sandwiches"] = len(sandwiches)
+        progs = list(progs) + deep + sandwiches
         n_small = 0
         for toks in progs:
             if pid == "C06" and not one_setup_per_nest(toks):
